@@ -301,3 +301,32 @@ def selftest():
     assert p.full((2,), None)[0] != p.full((2,), None)[0]  # NaN
     n += 3
     return n
+
+
+def adaptations_patch(proxy):
+    """`extra` entry for `installed`: the functions offered in model equations (aldi.adaptations: log, exp, sqrt, maximum, minimum,
+    abs, logistic) dispatch to numpy for plain arrays; on object arrays holding symbols they must go through the proxy"""
+    from irispie.aldi import adaptations as adp
+    from .gmath import EXPIT
+
+    def expit(x, *a, **k):
+        arr = _real.asarray(x, dtype=object)
+        out = _real.empty(arr.shape, dtype=object)
+        for idx in _real.ndindex(*arr.shape):
+            out[idx] = EXPIT(arr[idx])
+        return out if out.shape else out[()]
+
+    def wrap(name, f):
+        realf = adp._ELEMENTWISE_FUNCTIONS[name]
+
+        def g(x, *a, **k):
+            arr = _real.asarray(x)
+            if arr.dtype == object or isinstance(x, _SYM) or any(isinstance(y, _SYM) for y in a):
+                return f(x, *a, **k)
+            return realf(x, *a, **k)
+        return g
+    table = dict(adp._ELEMENTWISE_FUNCTIONS)
+    for name, f in (("log", proxy.log), ("exp", proxy.exp), ("sqrt", proxy.sqrt), ("abs", proxy.abs), ("maximum", proxy.maximum),
+                    ("minimum", proxy.minimum), ("logistic", expit)):
+        table[name] = wrap(name, f)
+    return (adp, "_ELEMENTWISE_FUNCTIONS", table)
